@@ -54,8 +54,8 @@ def sut(fn, *args, **kwargs):
     """Call into rich; anything it raises is attributed to the system under test."""
     try:
         return fn(*args, **kwargs)
-    except SutError:
-        raise
+    except (SutError, MemoryError):
+        raise  # MemoryError: no allocation here; run_case reports it once the frames holding the memory are gone
     except Exception as exc:  # noqa
         raise SutError(exc) from exc
 
